@@ -29,6 +29,9 @@ type incSpec struct {
 	Img  bt.Image
 	Drop []int // per table: which rows (mod count) lose their table row
 	Seed uint64
+	// Short: the index entries of those rows are cut short as well (no rowid
+	// / primary key columns at their end)
+	Short bool `json:",omitempty"`
 }
 
 func TestC12Inconsistent(t *testing.T) {
@@ -39,6 +42,7 @@ func TestC12Inconsistent(t *testing.T) {
 				Img:  btgen.Image(t, btgen.Opts{MaxRows: 25, Indexes: true, WR: true, RowidAlias: true, PageSizes: []int{512, 1024}}),
 				Drop: rapid.SliceOfN(rapid.IntRange(0, 1000), 1, 4).Draw(t, "drop"),
 				Seed: rapid.Uint64().Draw(t, "seed"),
+				Short: rapid.IntRange(0, 2).Draw(t, "short") == 0,
 			}
 		},
 		Run: runInconsistent,
@@ -60,6 +64,7 @@ func runInconsistent(r *vt.Run, t vt.TB, s incSpec) {
 			gone[d%len(rows)] = true
 		}
 		tb.Rows, tb.Phantom = nil, nil
+		tb.PhantomShort = s.Short
 		for i, row := range rows {
 			if gone[i] {
 				tb.Phantom = append(tb.Phantom, row)
@@ -175,7 +180,7 @@ func runInconsistent(r *vt.Run, t vt.TB, s incSpec) {
 			}
 		}
 	}
-	r.Case(s, hits > 0, fmt.Sprintf("inconsistent:rows-missing<=%d", min(dropped, 4)))
+	r.Case(s, hits > 0, fmt.Sprintf("inconsistent:rows-missing<=%d", min(dropped, 4)), fmt.Sprintf("inconsistent:entries-cut-short=%v", s.Short))
 	r.Count("inconsistent:scans", scans)
 	r.Count("inconsistent:scans-meeting-a-missing-row", hits)
 }
